@@ -1,9 +1,9 @@
-// Stand-alone reproductions for the C35 findings on the HTTP/3 server's
-// request-stream framing (plain Go tests, no vx).
+// Stand-alone reproductions for the C35 findings on HTTP/3 request / response
+// stream framing (plain Go tests, no vx).
 //
 // Overlay into /repo/internal/http3 (package http3), e.g.
 //
-//	echo '{"Replace":{"/repo/internal/http3/zz_c35_findings_test.go":"/verif/findings/C35_server_request_stream_framing_test.go"}}' > /tmp/ov.json
+//	echo '{"Replace":{"/repo/internal/http3/zz_c35_findings_test.go":"/verif/findings/C35_stream_framing_test.go"}}' > /tmp/ov.json
 //	cd /repo && /verif/tools/go.sh test -overlay /tmp/ov.json -vet=off -run 'TestC35Finding' -v ./internal/http3/
 //
 // Each test FAILS on the pinned tree and describes the expected behaviour.
@@ -76,6 +76,61 @@ func TestC35FindingUnknownFrameBeforeHeadersNotSkipped(t *testing.T) {
 		_, err := io.ReadAll(st.stream.stream)
 		if !called {
 			t.Errorf("handler not called for [unknown frame, HEADERS]; response stream: %v", err)
+		}
+	})
+}
+
+// A trailer HEADERS frame cut short by FIN, read through the request body.
+// The handler's Body.Read fails with QPACK_DECOMPRESSION_FAILED (or, for other
+// cut points, the bare H3_FRAME_ERROR is only produced by accident of where the
+// cut falls): qpackDecoder.decode maps the short read to a QPACK error. RFC
+// 9114 §7.1 requires H3_FRAME_ERROR for a truncated last frame.
+func TestC35FindingTruncatedTrailersReportedAsQPACKError(t *testing.T) {
+	synctest.Test(t, func(t *testing.T) {
+		var readErr error
+		ts := newTestServer(t, http.HandlerFunc(func(w http.ResponseWriter, r *http.Request) {
+			_, readErr = io.ReadAll(r.Body)
+		}))
+		tc := ts.connect()
+		tc.greet()
+		st := tc.newStream(streamTypeRequest)
+		section := []byte{0x00, 0x00, 0xd4, 0xd7, 0x51, 0x02, '/', 'c', 0x50, 0x01, 'h'}
+		st.writeVarint(int64(frameTypeHeaders))
+		st.writeVarint(int64(len(section)))
+		st.Write(section)
+		trailer := []byte{0x00, 0x00, 0x23, 'x', '-', 't', 0x01, 'v'}
+		st.writeVarint(int64(frameTypeHeaders))
+		st.writeVarint(int64(len(trailer)))
+		st.Write(trailer[:5]) // cut inside the literal name
+		st.Flush()
+		st.stream.stream.CloseWrite()
+		synctest.Wait()
+		if !errors.Is(readErr, errH3FrameError) {
+			t.Errorf("request body with a truncated trailer HEADERS frame: Read error = %v; want H3_FRAME_ERROR", readErr)
+		}
+	})
+}
+
+// The client: a response HEADERS frame that announces 3 payload bytes of which
+// 2 arrive before FIN. clientConn.handleHeaders reports H3_MESSAGE_ERROR (a
+// stream error) because stream.ReadByte charges the missing byte against the
+// frame limit before it notices the end of the stream, so the following
+// endFrame check passes. Other cut points do give H3_FRAME_ERROR.
+func TestC35FindingClientTruncatedResponseHeadersReportedAsMessageError(t *testing.T) {
+	synctest.Test(t, func(t *testing.T) {
+		tc := newTestClientConn(t)
+		tc.greet()
+		req, _ := http.NewRequest("GET", "https://example.tld/", nil)
+		rt := tc.roundTrip(req)
+		st := tc.wantStream(streamTypeRequest)
+		st.writeVarint(int64(frameTypeHeaders))
+		st.writeVarint(3)
+		st.Write([]byte{0x00, 0x00}) // the :status line (0xd9) is missing
+		st.Flush()
+		st.stream.stream.CloseWrite()
+		synctest.Wait()
+		if err := rt.err(); !errors.Is(err, errH3FrameError) {
+			t.Errorf("RoundTrip with a truncated response HEADERS frame: error = %v; want H3_FRAME_ERROR", err)
 		}
 	})
 }
